@@ -186,7 +186,7 @@ def judge_stokes(j, ranks, ref_ranks, nprocs):
     ref_sc = scalars_of(ref_ranks)[0]
     for suf in (".v0", ".v1", ".p"):
         judge_sync(j, ranks, suf)
-        for name, rel, ab in (("u", 0, 0), ("w", 0, 0), ("A_u", 1e-11, 1e-12), ("w_minus_half_A_u", 1e-11, 1e-12)):
+        for name, rel, ab in (("u", 0, 0), ("w", 0, 0), ("A_u", 1e-11, 1e-12), ("w_minus_half_A_u", 1e-11, 1e-12), ("w_minus_half_A_u_aliased", 1e-11, 1e-12)):
             m = j.merged_consistent(vecs_of(ranks, name + suf), name + suf, 1e-12, 1e-13)
             j.compare_ref(m, vecs_of(ref_ranks, name + suf)[0], name + suf, rel, ab)
     for name, (rel, ab) in {"dot_u_w": (1e-11, 1e-12), "norm2_u": (1e-12, 0), "norm2sqr_w": (1e-12, 0), "max_abs_u": (0, 0)}.items():
@@ -275,6 +275,7 @@ def judge_run(j, ranks, ref_ranks, nprocs):
     # --- consistent vectors vs serial
     for name, rel, ab in (("u", 0, 0), ("w", 0, 0), ("A_u", 1e-11, 1e-12), ("w_minus_half_A_u", 1e-11, 1e-12), ("rhs_post", 1e-11, 1e-12),
                           ("At_u", 1e-11, 1e-12), ("w_minus_half_At_u", 1e-11, 1e-12), ("diag_A", 1e-12, 1e-13),
+                          ("w_minus_half_A_u_aliased", 1e-11, 1e-12), ("w_minus_half_At_u_aliased", 1e-11, 1e-12),
                           ("split_b", 0, 0), ("io_w", 1e-14, 1e-15),
                           ("rhs_filtered", 1e-11, 1e-12), ("pcgj_sol", 1e-6, 1e-7), ("pcgmg_sol", 1e-6, 1e-7)):
         if name in ("split_b", "io_w") and not any(vecs_of(ranks, name)):
